@@ -10,9 +10,20 @@ PROP = dict(
                  'no two distinct images of the positions met share a 64-bit hash (Symmetries de-duplicates by hash)'],
 )
 MANIFEST = dict(
-    text="Model of Symmetries / TransformMove (int8 flips, direction re-derived from the transformed endpoint) composed with the proved move "
-         "model is compared with the implementation on every image of every generated (position, move); an independent Go oracle with its own "
-         "eight coordinate maps checks commutation of move application, invariance of legality / game over / winner / flat counts, and that "
-         "Symmetries lists each distinct image exactly once paired with the transform producing it. Coq: symmetry group table and adjacency preservation (Sym.v).",
-    ref='5.14', technique='model/implementation differential + independent symmetry oracle; Coq proofs of the group facts (equivariance theorem on Rules.v pending)',
-    note="Trusted: Coq kernel, extraction, transcription of symmetry/canonical.go. rules_equivariant is not yet proved: claimed with the theorem side partial.")
+    text="Coq (Properties/C14.v, all closed under the global context): on the rules specification Rules.v, for each of the eight symmetries k "
+         "and EVERY raw move value (illegal, off-board, bad type code included) rules_move (img k b) (tm k m) = option_map (img k) (rules_move b m) "
+         "(rules_equivariant); roads, flat counts, fullness, reserves, side to move and hence the outcome are invariant; the images compose like "
+         "the group table and k / inv k undo each other; the code-shaped TransformMove (int8 flips, direction re-derived from the end point) "
+         "equals tm on every transformable move (coordinates in [-64,64), type <= 8, slides with >= 1 drop) and panics on the rest; and through "
+         "C01's refinement theorem the bit-level Position.Move commutes with the symmetries (Ok/Err-wise, results abs-equal, never Panic) for any "
+         "two positions satisfying the C01 invariant that show a board and its image. "
+         "Execution: model of Symmetries / TransformMove composed with the proved move model is compared with the implementation on every image of "
+         "every generated (position, move); an independent Go oracle with its own eight coordinate maps checks commutation of move application, "
+         "invariance of legality / game over / winner / flat counts, and that Symmetries lists each distinct image exactly once paired with the "
+         "transform producing it.",
+    ref='5.14', technique='Coq proofs (rules_equivariant, road/outcome invariance, TransformMove = tm, Move equivariance via C01) + '
+                          'model/implementation differential + independent symmetry oracle',
+    note="Trusted: Coq kernel, extraction, transcription of symmetry/canonical.go. Partial on the theorem side: move_equivariant is stated for any "
+         "position q with abs q = img k (abs p) rather than for Symmetry.image (abs (image p s) = img k (abs p), i.e. the rebuild through "
+         "from_squares, is not proved), Pass is excluded as in C01; gameover_invariant at the bit level and symmetries_exact are not proved "
+         "(decided by correspondence + oracle).")
